@@ -497,6 +497,10 @@ def rule_unequal_rhythms(ctx):
         ("halves against quarter-half-quarter", [["N1", "N2"], ["N1", "N1", "N1"]], [[2, 2], [4, 2, 4]]),
         ("rest in one bar", [["N1", "R"], ["N1", "N1", "N2"]], [[2, 2], [4, 4, 2]]),
         ("three bars", [["N1"], ["N1", "N1"], ["N1", "N1", "N1", "N1"]], [[1], [2, 2], [4, 4, 4, 4]]),
+        # bars that are not full (the last bar of most tracks): everything that is there is played once, the tempo is returned
+        ("half-full bars", [["N1", "N1"], ["N2"]], [[4, 4], [2]]),
+        ("single half-full bar", [["N1", "R", "N1"]], [[4, 8, 8]]),
+        ("first bar shorter", [["N1"], ["N1", "N1", "N1"]], [[4], [4, 4, 4]]),
     ]
     for label, kinds_per_bar, durs_per_bar in shapes:
         bpm0 = RatFun.var("bpm")
@@ -546,6 +550,8 @@ def rule_unequal_rhythms(ctx):
                         break
             if ok and streams_equal(it, obs_low_stream(it), got):
                 ok, why = False, "observers and hooks see different low-level streams"
+            if ok and not (isinstance(res, dict) and set(res) == {"bpm"} and same_val(it, res["bpm"], bpm0)):
+                ok, why = False, "returns %r, expected {'bpm': tempo}" % (res,)
         ctx.check(ok, R, "play_Bars[%s]" % label, f.where(), "Sequencer.play_Bars(<%s>)" % label, why)
 
 
